@@ -7,12 +7,13 @@ ENGINES = [
                         "pipeline with the codecs as coded; exhaustive over certificate shapes and exporter of shapes x single-field perturbations; every shape driven through the "
                         "real flows, real AggSender.sendCertificate, real gRPC client (loopback) and real SQLite storage; TLC trace validation of commitment/identity/field "
                         "equalities, signer recovery and perturbation effects"),
-    dict(name="bridgeapi", path="specs/BridgeAPI.tla specs/BridgeAPITrace.tla specs/Merkle.tla harness/areas/bridgeapi harness/names checks/C12.py",
+    dict(name="bridgeapi", path="specs/BridgeAPI.tla specs/BridgeAPIReorg.tla specs/BridgeAPITrace.tla specs/Merkle.tla harness/areas/bridgeapi harness/names checks/C12.py",
          serves_properties=["C12"],
          kind_free_text="joint L1/L2 history spec with both binary searches and the proof assembly as coded; TLC exhaustive (joint + per-lookup focus configs); "
                         "every TLC state is a history replayed into the real bridgeservice.New over real bridge/L1-info/injected-GER stores, requests through the "
-                        "real gin routes; named answers judged by TLC"),
-    dict(name="lastger", path="specs/LastGER.tla specs/LastGERTrace.tla harness/areas/lastger checks/C16.py", serves_properties=["C16"],
+                        "real gin routes; named answers judged by TLC; BridgeAPIReorg.tla: the stores are reorged while the service runs (a service that remembers "
+                        "answers across the reorg is the refuted variant), replayed through the real Reorg of the three stores"),
+    dict(name="lastger", path="specs/LastGER.tla specs/LastGERTrace.tla harness/areas/lastger fixtures/lastger_v1.sqlite checks/C16.py", serves_properties=["C16"],
          kind_free_text="TLC exhaustive on the PP downloader/driver/processor/reorg-detector spec (repaired rule passes; rule as coded and first repair "
                         "candidate kept as counterexample regressions); sampled edge cover + seeded random + regression schedules replayed into the real "
                         "lastgersync(PP) stack behind a gated fake L2 client; TLC trace validation"),
@@ -24,9 +25,10 @@ ENGINES = [
          kind_free_text="TLC exhaustive safety + TLC liveness (weak fairness, treadmill quotient of an unbounded L1) on the processLatestGER spec; edge-cover, "
                         "treadmill and random schedules replayed into the real AggOracle on the real L1-info store; TLC trace validation (safety per received "
                         "call, bounded response per run of ticks)"),
-    dict(name="certcut", path="specs/CertCut.tla specs/CertCutTrace.tla harness/areas/certcut checks/C17.py", serves_properties=["C17"],
+    dict(name="certcut", path="specs/CertCut.tla specs/GapOps.tla specs/GapInd.tla specs/CertCutTrace.tla harness/areas/certcut checks/C17.py", serves_properties=["C17"],
          kind_free_text="TLC exhaustive on the code-shaped limitCertSize/Range/AdaptCertificate/Gap operators with W-bit wrap-around; every enumerated case "
-                        "replayed into the real functions at both ends of uint64; TLC trace validation"),
+                        "replayed into the real functions at both ends of uint64; TLC trace validation; BlockRange.Gap for all 64-bit ranges by Apalache (GapInd.tla "
+                        "over the operator module GapOps.tla that CertCut.tla instantiates)"),
     dict(name="globalindex", path="specs/GlobalIndex.tla specs/GlobalIndexTrace.tla harness/areas/globalindex checks/C19.py", serves_properties=["C19"],
          kind_free_text="TLC exhaustive on the byte-string codec spec and exporter of all zero/non-zero byte patterns; patterns x byte values, boundary, "
                         "random and canonical values run through the real codec, real PP/FEP flows and real gRPC clients; TLC trace validation of round "
@@ -34,10 +36,13 @@ ENGINES = [
     dict(name="claimcall", path="specs/ClaimCall.tla specs/ClaimCallTrace.tla harness/areas/claimcall checks/C20.py", serves_properties=["C20"],
          kind_free_text="TLC exhaustive on the findCall/setClaimCalldata stack machine over all call trees; every tree replayed as a "
                         "debug_traceTransaction answer into the real claim handlers -> ProcessBlock -> GetClaims; TLC trace validation"),
-    dict(name="store", path="specs/Store.tla specs/Merkle.tla specs/StoreTrace.tla harness/areas/store harness/names checks/store_common.py",
+    dict(name="store", path="specs/Store.tla specs/Merkle.tla specs/StoreTrace.tla specs/ContractTrace.tla harness/areas/store harness/areas/contracts harness/sqlfault harness/iofault harness/names fixtures checks/store_common.py checks/contracts_oracle.py",
          serves_properties=["C01", "C04", "C07", "C08", "C11", "C14"],
          kind_free_text="implementation-shaped spec of the SQLite processors and trees (frontier cache, rollback callbacks, never-cleaned node table); "
-                        "TLC exhaustive; edge-cover behaviours replayed into the real processors with SQL-trigger fault injection; named snapshots judged by TLC"),
+                        "TLC exhaustive; edge-cover behaviours replayed into the real processors with fault injection at statement level (SQL triggers), at "
+                        "statement compilation (SQLite authorizer, also for another actor in the middle of an operation) and under running statements (EIO "
+                        "from pread/pwrite through SQLite's system-call table), on fresh files and on files written earlier by the repository's code; named "
+                        "snapshots judged by TLC; C01/C11: the real contracts in an in-process EVM as ground truth, second nodes through the real constructors"),
     dict(name="evmsync", path="specs/EVMSync.tla specs/EVMSyncTrace.tla harness/areas/evmsync checks/evmsync_common.py checks/C05.py checks/C06.py checks/regress/C06_F6.json",
          serves_properties=["C05", "C06"],
          kind_free_text="implementation-shaped spec of the downloader's cursor/zone arithmetic, downloadedCh, driver, tracked lists (memory + SQLite) and the "
